@@ -76,7 +76,9 @@ def build_jobs(rng, thorough):
             vals = {0: 'off', 1: 'on', 0xff: 'minus1', 0x7f: 'max'}
         # second list: names that are prefixes / case variants of each other (lookup by name must be exact)
         vals2 = {1: 'on', 2: 'on_demand', 3: 'ON', 4: 'o', 7: 'offline', 8: 'off', 9: 'Off', 10: 'on demand', 11: 'on_'}
-        for vl in (vals, vals2):
+        # third list: numeric looking names that collide with other raw values (lookup must try the names first)
+        vals3 = {0: '1', 1: '10', 2: '20', 10: '100', 3: '1.5', 4: '2', 20: '0', 5: '05'}
+        for vl in (vals, vals2, vals3):
             dv = ';'.join('%d=%s' % kv for kv in vl.items())
             for fmt in (0, OF_NUMERIC, JS, OF_VALUENAME):
                 jobs.append(Job(tid, dv, fmt=fmt, sweep=(t.nbytes, 0, 1 << (8 * t.nbytes)) if t.nbytes == 1 else None,
